@@ -6,7 +6,7 @@ CONSTANTS
   Formats = {"pilosa","official"}
   MaxBatch = 3
   RowSizes = {0,1}
-  Alphabet = {"Add","Remove","AddN","RemoveN","ImportSet","ImportClear","Optimize","Reencode"}
+  Alphabet = {"Add","Remove","AddN","RemoveN","ImportSet","ImportClear","Optimize","Reencode","Hold"}
 INIT Init
 NEXT Next
 INVARIANT TypeOK
